@@ -59,7 +59,7 @@ Proper(g) ==
     /\ WellFormed(g)
     /\ \A s \in 1..g.n : \A k \in DOMAIN g.tr[s] :
          IF g.owner[s] = PR THEN g.tr[s][k].w >= 0 /\ TotalW(g, s) >= 1 /\ g.tr[s][k].a = ""
-         ELSE /\ g.tr[s][k].a # "" /\ g.tr[s][k].w = 0
+         ELSE /\ g.tr[s][k].w = 0          \* (any string is an action name, the empty one included)
               /\ \A j \in DOMAIN g.tr[s] : j # k => g.tr[s][j].a # g.tr[s][k].a
 
 -----------------------------------------------------------------------------
